@@ -686,6 +686,18 @@ func (c *fnCtx) waitGroups() {
 			flag(adds[0].Pos(), fmt.Sprintf("%s.Add is called but %s.Wait() is never reached: goroutines are left behind", name, name))
 		}
 		if len(doers) == 0 {
+			// a goroutine started through a named function or method
+			// (go w.run()) has its body elsewhere: Done may be called there
+			unresolved := false
+			for _, gs := range c.gos {
+				if gs.lit == nil {
+					unresolved = true
+				}
+			}
+			if unresolved {
+				c.res.Count("waitgroups_with_goroutine_bodies_elsewhere", 1)
+				continue
+			}
 			flag(adds[0].Pos(), fmt.Sprintf("%s.Add is called but no spawned goroutine calls %s.Done()", name, name))
 			continue
 		}
